@@ -21,6 +21,10 @@ CHECKS = {
                 technique="exhaustive enumeration of all interleavings of iterator steps and edits up to a depth on the real linked list / graph iterators, trace monitors from the statement + plain-list reference for the sequence protocol",
                 text="Every event sequence (iterator steps of up to two simultaneous forward/reverse/recursive iterators interleaved with append/extend/insert_before/insert_after/remove/move/sort on current, earlier, later, removed and foreign nodes) up to the depth bound, after 0-3 warm-up steps, is executed on the real classes; after every event len/index/negative index/membership/iteration/reversed are compared with a plain Python list, and at the end every iterator is drained and judged by monitors taken literally from the statement (termination, membership at yield time, untouched nodes exactly once in order, inserted-after/before rule, resume-after-removal rule, iterator independence).",
                 note="Position-dependent rules are judged only where the statement is unambiguous (documented in the evidence assumptions). Depth 3 (quick) / 4 (thorough) beyond the warm-up."),
+    "C12": dict(level="exploration", engine="E6-enum", design="4/C12",
+                technique="small-scope exhaustive enumeration of graph structures (all wirings incl. cycles x all initial permutations x two object creation orders) against a networkx dependency reference",
+                text="Every wiring of up to 3 (quick) / 4 (thorough) nodes with optional, repeated and multi-output inputs, with nested bodies (one and two levels) capturing values of enclosing graphs, in every initial permutation, is sorted through Graph.sort, Function.sort and TopologicalSortPass; the result must be a linear extension of the reference dependency relation per graph, keep membership, leave valid orders untouched, be idempotent and independent of object creation order; cyclic instances must raise ValueError and leave every order unchanged.",
+                note="Trusts networkx for acyclicity; the generator excludes outer nodes using inner values (not valid ONNX scoping)."),
 }
 
 NOT_YET = {}
@@ -62,6 +66,8 @@ def main():
              "kind_free_text": "explicit-state BFS over the real transition function; states are histories replayed on fresh real objects; dedup on canonical public snapshot"},
             {"name": "E1-seq", "path": "mc/props/c11.py", "serves_properties": ["C11"],
              "kind_free_text": "stateless enumeration of all event sequences up to a depth with trace monitors"},
+            {"name": "E6-enum", "path": "mc/props/", "serves_properties": ["C12"],
+             "kind_free_text": "small-scope exhaustive input/structure enumeration with independent reference oracles"},
             {"name": "E4-sched", "path": "mc/sched.py", "serves_properties": ["C09"],
              "kind_free_text": "cooperative baton scheduler for real threads + stateless DFS with delay/preemption bounding"},
         ],
